@@ -44,6 +44,75 @@ Concat(s, i) == IF i > Len(s) THEN <<>> ELSE s[i] \o Concat(s, i + 1)
 FromItems(n, items) == [i \in 1 .. n |-> IF i <= Len(items) THEN items[i] ELSE TDefault]
 
 ---------------------------------------------------------------------------
+(* C19: conversions between vector kinds and sizes, swizzles, setters,     *)
+(* shuffles, colour helpers - all statements about which element goes      *)
+(* where.  TFull is the opaque `full()` of a colour component, TLit(k) the *)
+(* literal T::from(k).                                                     *)
+(* C19 | src/vec.rs From impls between kinds/sizes, with_.., swizzles,     *)
+(*       from_point/from_direction, shuffle.., interleave.., ShuffleMask4, *)
+(*       colour constructors / helpers                                     *)
+TFull == TConst(3)
+TLit(k) == TConst(100 + k)
+CSUB == 11
+CDIV == 13
+CNEG == 20
+Conv(how, m, input, s) ==
+    LET n == Len(input)
+        fill == CASE how = "zero" -> TZero [] how = "scalar" -> s [] how = "point" -> TOne [] how = "direction" -> TZero
+                  [] how = "opaque" -> TFull [] how = "transparent" -> TZero [] OTHER -> TZero
+    IN IF how = "zero_scalar" THEN <<input[1], input[2], TZero, s>>              \* Vec2::with_w
+       ELSE [i \in 1 .. m |-> IF i <= n THEN input[i] ELSE fill]                 \* keep / shrink / grow
+\* matrix size conversion on opaque elements (cf. VekMat!Resize): keep the common block, identity elsewhere
+ResizeT(A, m) == [i \in 1 .. m |-> [j \in 1 .. m |-> IF i <= Len(A) /\ j <= Len(A) THEN A[i][j] ELSE IF i = j THEN TOne ELSE TZero]]
+Perm(v, idx) == [i \in 1 .. Len(idx) |-> v[idx[i]]]
+SetAt(v, k, s) == [i \in 1 .. Len(v) |-> IF i = k THEN s ELSE v[i]]
+Swizzle(how, v, s) ==
+    CASE how = "yx" -> Perm(v, <<2, 1>>) [] how = "zyx" -> Perm(v, <<3, 2, 1>>) [] how = "bgr" -> Perm(v, <<3, 2, 1>>)
+      [] how = "wxyz" -> Perm(v, <<4, 1, 2, 3>>) [] how = "argb" -> Perm(v, <<4, 1, 2, 3>>)
+      [] how = "wzyx" -> Perm(v, <<4, 3, 2, 1>>) [] how = "zyxw" -> Perm(v, <<3, 2, 1, 4>>) [] how = "bgra" -> Perm(v, <<3, 2, 1, 4>>)
+      [] how = "with_x" -> SetAt(v, 1, s) [] how = "with_y" -> SetAt(v, 2, s) [] how = "with_z" -> SetAt(v, 3, s) [] how = "with_w" -> SetAt(v, 4, s)
+      \* colour helpers: rgb inverted against full(), alpha untouched; average of r, g, b
+      [] how = "inverted_rgb" -> [i \in 1 .. Len(v) |-> IF i <= 3 THEN TOp2(CSUB, TFull, v[i]) ELSE v[i]]
+      [] how = "inverted_twice" -> [i \in 1 .. Len(v) |-> IF i <= 3 THEN TOp2(CSUB, TFull, TOp2(CSUB, TFull, v[i])) ELSE v[i]]
+      [] how = "average_rgb" -> <<TOp2(CDIV, TOp2(CADD, TOp2(CADD, v[1], v[2]), v[3]), TLit(3))>>
+      [] how = "gray" -> <<s, s, s>> [] how = "gray4" -> <<s, s, s, TFull>>
+\* lanes (lo[a], lo[b], hi[c], hi[d]) with indices taken modulo 4
+ShuffleLoHi(lo, hi, idx) == <<lo[(idx[1] % 4) + 1], lo[(idx[2] % 4) + 1], hi[(idx[3] % 4) + 1], hi[(idx[4] % 4) + 1]>>
+Shuffle(how, lo, hi, idx) ==
+    CASE how = "lo_hi" -> ShuffleLoHi(lo, hi, idx)
+      [] how = "self" -> ShuffleLoHi(lo, lo, idx)
+      [] how = "s0101" -> Perm(lo, <<1, 2, 1, 2>>) [] how = "s2323" -> Perm(lo, <<3, 4, 3, 4>>)
+      [] how = "s0022" -> Perm(lo, <<1, 1, 3, 3>>) [] how = "s1133" -> Perm(lo, <<2, 2, 4, 4>>)
+      [] how = "interleave_0011" -> <<lo[1], hi[1], lo[2], hi[2]>> [] how = "interleave_2233" -> <<lo[3], hi[3], lo[4], hi[4]>>
+      [] how = "lo_hi_0101" -> <<lo[1], lo[2], hi[1], hi[2]>>
+      [] how = "hi_lo_2323" -> <<hi[3], hi[4], lo[3], lo[4]>>      \* (a, b) |-> (b.z, b.w, a.z, a.w)
+      [] how = "to_indices" -> [i \in 1 .. 4 |-> idx[i] % 4]
+\* named constants: component patterns; "1" is one for unit vectors and full() for colours
+TNegOne == TOp1(CNEG, TOne)
+Pat(s, one) == [i \in 1 .. Len(s) |-> IF s[i] = 0 THEN TZero ELSE IF s[i] = 1 THEN one ELSE TNegOne]
+NamedColor(how, n) ==
+    LET rgb == CASE how = "black" -> <<0, 0, 0>> [] how = "white" -> <<1, 1, 1>> [] how = "red" -> <<1, 0, 0>> [] how = "green" -> <<0, 1, 0>>
+                 [] how = "blue" -> <<0, 0, 1>> [] how = "cyan" -> <<0, 1, 1>> [] how = "magenta" -> <<1, 0, 1>> [] how = "yellow" -> <<1, 1, 0>>
+                 [] how = "zero" -> <<0, 0, 0>>
+    IN IF n = 3 THEN Pat(rgb, TFull) ELSE Pat(rgb \o <<IF how = "zero" THEN 0 ELSE 1>>, TFull)     \* named colours are opaque
+NamedVec(how, n) ==
+    LET base == CASE how \in {"unit_x", "right", "unit_x_point", "right_point"} -> <<1, 0, 0, 0>>
+                  [] how \in {"left", "left_point"} -> <<2, 0, 0, 0>>
+                  [] how \in {"unit_y", "up", "unit_y_point", "up_point"} -> <<0, 1, 0, 0>>
+                  [] how \in {"down", "down_point"} -> <<0, 2, 0, 0>>
+                  [] how \in {"unit_z", "forward_lh", "back_rh", "unit_z_point", "forward_point_lh", "back_point_rh"} -> <<0, 0, 1, 0>>
+                  [] how \in {"forward_rh", "back_lh", "forward_point_rh", "back_point_lh"} -> <<0, 0, 2, 0>>
+                  [] how = "unit_w" -> <<0, 0, 0, 1>>
+        isPoint == how \in {"unit_x_point", "right_point", "left_point", "unit_y_point", "up_point", "down_point", "unit_z_point",
+                            "forward_point_lh", "back_point_rh", "forward_point_rh", "back_point_lh"}
+        v == IF isPoint THEN <<base[1], base[2], base[3], 1>> ELSE base
+    IN Pat([i \in 1 .. n |-> v[i]], TOne)
+\* full() of the integer colour component types, as decimal strings (64-bit values exceed TLC's integers)
+FullStr(bits, signed) == IF bits = 0 THEN "1"
+                         ELSE IF signed = 1 THEN (CASE bits = 8 -> "127" [] bits = 16 -> "32767" [] bits = 32 -> "2147483647" [] bits = 64 -> "9223372036854775807")
+                         ELSE (CASE bits = 8 -> "255" [] bits = 16 -> "65535" [] bits = 32 -> "4294967295" [] bits = 64 -> "18446744073709551615")
+
+---------------------------------------------------------------------------
 (* Integer lane                                                            *)
 B2I(b) == IF b THEN 1 ELSE 0
 Cmp(which, x, y) == CASE which = "eq" -> x = y [] which = "ne" -> x # y [] which = "ge" -> x >= y
